@@ -101,7 +101,7 @@ func snapOpt(name string, p interface{}) snap {
 
 func runC11(r *lib.Run) {
 	r.Rule = "every API named in the statement is called on generated trees, requests, notifications, payloads and option structs; each argument is deep-snapshotted before the call (leaf set + representation for GoStructs, proto.Clone + deterministic bytes for messages, formatted copy for option structs and decoded JSON) and compared after; non-trivial = tree has >=5 leaves; distinct by cfg+tree"
-	n := r.N(150, 4000)
+	n := r.N(150, 1500)
 	for _, cfg := range cfgsFor(r, quick3) {
 		rootEntry := cfg.RootEntry()
 		for i := 0; i < n; i++ {
